@@ -28,6 +28,16 @@ CHECKS = {
          "For each generated query the exact set of referenced symbols is known by construction; ValidateSymbolsArePublic must accept iff all are public and otherwise name a referenced non-public symbol. The single non-public symbol is drawn uniformly over syntactic occurrences, so deep positions (inside set functions, sub-queries, in/between/contains/null tests, sort fields) are hit as often as shallow ones; the histogram of positions is reported.",
          "Dotted linked symbols are excluded (publicity undefined for them); sub-queries range over a self-link so the store is unambiguous.",
          "DESIGN.md §3 C20"),
+ "C10": (True, "exploration",
+         "property-based testing and fuzzing: grammar sentences with free operand types, token-level mutants, bounded-exhaustive token strings, random runes, foreign-character injections (rapid); native coverage-guided go fuzzing in the thorough tier; oracle = recover-guarded totality + independent rejection rule",
+         "Every generated input is pushed through ast.Parse (bolt and in-memory symbol tables), and every query that parses is evaluated through QueryIds, IterateIds, in-memory EvalBool, ValidateSymbolsArePublic and ObjectStore.QueryEntities over an empty store, all-null rows and a rich dataset, all under recover: a panic, or a result that is neither exactly a query nor exactly an error, is a violation. Independently of the parser, a well-typed sentence with one character that occurs in no lexer rule inserted at a token boundary must be rejected. All token strings of length <= 3 (quick) / <= 4 (thorough) over a 41-token alphabet are enumerated.",
+         "Termination is only observed through the test deadline. The fuzz target caps input length and the number of and/or tokens because ANTLR prediction is exponential on long mixed chains (a performance matter, not claimed).",
+         "DESIGN.md §3 C10"),
+ "C12": (True, "exploration",
+         "bounded-exhaustive enumeration of boolean skeletons plus property-based re-spelling (rapid); oracle = truth table of the skeleton under standard precedence, and metamorphic invariance of QueryIds under re-spelling",
+         "All and/or/not skeletons with up to 4 atoms (5 in the thorough tier) are enumerated in three parenthesisation styles and compared on all 2^n assignments with the skeleton's own value (and over or, chains flat, not (P) = negation). Random skeletons up to 8 atoms are re-spelled with arbitrary whitespace runs in every WS slot, per-letter keyword case and redundant parentheses; a quarter are instantiated with real comparisons over a stored dataset where the re-spelling, the canonical spelling and the skeleton applied to the atoms' own answers must agree.",
+         "How a bare 'not' binds against and/or is not stated and not asserted (not is always written not (P) and parenthesised as an operand).",
+         "DESIGN.md §3 C12"),
  "C11": (True, "exploration",
          "property-based testing (rapid) with a round-trip oracle and an end-to-end query oracle; native go fuzzing of the codec in the thorough tier",
          "Generated strings over the property's alphabet (biased to adjacent backslash/letter/quote patterns) are quoted, parsed back and used in =, !=, in, not in, contains, not contains queries over rows holding the string, near-misses and null, through the in-memory symbol route and a bolt store; every answer is compared with the set computed directly from the intended string. Sampling, not proof: a defect needing a string outside the alphabet/length bound can be missed.",
